@@ -234,6 +234,10 @@ func diffTranscripts(a, b *Result) {
 
 func spawnBin(bin, prop, tier string, seed uint64, start, count int, extraEnv []string, timeout time.Duration) workerRun {
 	cmd := exec.Command(bin, "-test.run=^TestWorker$", "-test.timeout=0")
+	if kb := os.Getenv("VERIF_ULIMIT_KB"); kb != "" {
+		// address-space limit for the worker only (C06)
+		cmd = exec.Command("bash", "-c", "ulimit -v "+kb+"; exec \"$0\" \"$@\"", bin, "-test.run=^TestWorker$", "-test.timeout=0")
+	}
 	cmd.Env = append(os.Environ(),
 		"VERIF_MODE=worker", "VERIF_PROP="+prop, "VERIF_TIER="+tier,
 		"VERIF_SEED="+strconv.FormatUint(seed, 10),
@@ -606,6 +610,9 @@ func runChoices(prop *Prop, tier string, rf *replayFile, trace bool) *Result {
 	tmp.Write(b)
 	tmp.Close()
 	cmd := exec.Command(os.Args[0], "-test.run=^TestWorker$", "-test.timeout=0")
+	if kb := os.Getenv("VERIF_ULIMIT_KB"); kb != "" {
+		cmd = exec.Command("bash", "-c", "ulimit -v "+kb+"; exec \"$0\" \"$@\"", os.Args[0], "-test.run=^TestWorker$", "-test.timeout=0")
+	}
 	cmd.Env = append(os.Environ(), "VERIF_MODE=replay", "VERIF_PROP="+prop.ID, "VERIF_TIER="+tier, "VERIF_REPLAY="+tmp.Name())
 	if trace {
 		cmd.Env = append(cmd.Env, "VERIF_TRACE=1")
